@@ -196,6 +196,7 @@ func RunScenarios(t *testing.T, agg *Agg, n int, mk func(i int) *vsync.Config, k
 	close(next)
 	var mu sync.Mutex
 	var firstErr string
+	nfail := 0
 	for w := 0; w < workers; w++ {
 		wg.Add(1)
 		go func(w int) {
@@ -222,10 +223,11 @@ func RunScenarios(t *testing.T, agg *Agg, n int, mk func(i int) *vsync.Config, k
 				b, rerr := os.ReadFile(outf)
 				var rs []*vsync.Result
 				if err != nil || rerr != nil || json.Unmarshal(b, &rs) != nil || len(rs) != 1 {
+					// a worker that died (killed for memory, crashed runtime) loses its
+					// scenario: reported as not exhausted with the reason, never as a verdict
+					results[i] = &vsync.Result{Name: fmt.Sprintf("scenario-%d", i), BoundCompleted: -1, Cap: fmt.Sprintf("worker failed: %v %v :: %s", err, rerr, tail(string(ob), 300))}
 					mu.Lock()
-					if firstErr == "" {
-						firstErr = fmt.Sprintf("scenario %d worker failed: %v %v\n%s", i, err, rerr, tail(string(ob), 2000))
-					}
+					nfail++
 					mu.Unlock()
 					continue
 				}
@@ -236,6 +238,9 @@ func RunScenarios(t *testing.T, agg *Agg, n int, mk func(i int) *vsync.Config, k
 	wg.Wait()
 	if firstErr != "" {
 		evid.Fatal("%s", firstErr)
+	}
+	if nfail == n {
+		evid.Fatal("every scenario worker failed: %s", results[0].Cap)
 	}
 	for _, r := range results {
 		agg.Add(r, keyFn)
